@@ -27,7 +27,7 @@ def zeroVal (env : Env) : Nat → Ty → Val
     | .eitherRef t => Val.ctor "L" (zeroVal env fuel t)
     | .refT t => zeroVal env fuel t
     | .prim p => Prim.zero p
-    | .vmStack _ | .dictE _ _ => .nil
+    | .vmStack _ | .dictE _ _ | .dict _ _ => .nil
     | .encErr _ | .opaque _ => .nil
 where zeroFields (env : Env) : Nat → Fields → Val
   | 0, _ => .nil
@@ -78,6 +78,17 @@ leaf cell after the label -/
 def valueCodecDec (dec : Slice → Outcome (Val × Slice)) : Hashmap.Codec Val where
   enc _ := .err "decoder only"
   dec bits refs := (dec { bits := bits, refs := refs }).bind fun r => .ok r.1
+
+/-- where the cursor of the current cell stands after Hashmap.UnmarshalTLB: behind the root label and the two
+references of a fork, or behind the value of a root leaf (`dec`: the value decoder). -/
+def dictRest (n : Nat) (dec : Slice → Outcome (Val × Slice)) (s : Slice) : Slice :=
+  match Hashmap.loadLabel n n [] s.bits with
+  | .ok (_, pfx, rest) =>
+    if pfx.length < n then { s with bits := rest, refs := s.refs.drop 2 }
+    else match dec { s with bits := rest } with
+      | .ok (_, s') => s'
+      | _ => { s with bits := [], refs := [] }
+  | _ => { s with bits := [], refs := [] }
 
 mutual
 
@@ -216,6 +227,17 @@ def decode (env : Env) : Nat → Ty → Slice → Outcome (Val × Slice)
             let ks ← mapMOutcome (fun (kv : Hashmap.Key × Val) =>
               (decode env fuel k { bits := kv.1 }).bind fun r => .ok r.1) kvs
             pure (dictVal ks (kvs.map (·.2)), s)
+    | .dict k t =>
+      -- Hashmap.UnmarshalTLB on the current cell (a pruned cell decodes as the empty map). The type counts as greedy
+      -- (`wfb` admits it in the last position only): the round-trip theorem says nothing about what follows it.
+      if s.isPruned then pure (.nil, s)
+      else match keyWidth k with
+        | none => .err "bad key type"
+        | some n => do
+          let kvs ← Hashmap.unmarshal (valueCodecDec (fun vs => decode env fuel t vs)) n s.toCell
+          let ks ← mapMOutcome (fun (kv : Hashmap.Key × Val) =>
+            (decode env fuel k { bits := kv.1 }).bind fun r => .ok r.1) kvs
+          pure (dictVal ks (kvs.map (·.2)), dictRest n (fun vs => decode env fuel t vs) s)
     | .encErr _ => .err "unmodelled"
     | .opaque _ => .err "unmodelled"
 
